@@ -29,7 +29,7 @@ FD = _d.FieldDescriptor
 PROFILE = grammar.profile(
     p_http=0.93, p_get=0.9, p_list=0.7, p_create=0.8, p_update=0.8, p_delete=0.7, p_custom=0.9, p_multi_var_path=0.6,
     p_sstream=0.4, p_cstream=0.0, p_bidi=0.0, p_lro=0.0, p_service_config=0.7, p_yaml=0.05, p_routing=0.1,
-    transports=["rest", "grpc+rest"], p_numeric_enums=0.5, p_additional_binding=0.5, p_reserved_field=0.1, p_reserved_path_var=0.3)
+    transports=["rest", "grpc+rest"], p_numeric_enums=0.5, p_additional_binding=0.5, p_reserved_field=0.1, p_reserved_path_var=0.3, p_required_enum=0.3)
 
 BUDGET = {
     "quick": {"worlds": 150, "runs": 80, "wall_cap": 300, "world_wall": 90},
@@ -596,7 +596,10 @@ def judge_op(spec, codec, scenario, op, evs, probes, numeric):
             req = find_message(spec, m["input"])
             qkeys = {k.split(".")[0] for k, _ in pairs}
             for f in (req or {"fields": []})["fields"]:
-                if f.get("required") and f["type"] != "message" and not f.get("repeated") and not f.get("map") \
+                # "required SCALAR field": numeric / bool / string / bytes.  Enums are not scalar value types in the
+                # proto3 language guide and the templates deliberately give them (like messages) no query default,
+                # so a default-valued required enum is not demanded here (its ENCODING, when sent, still is).
+                if f.get("required") and f["type"] not in ("message", "enum") and not f.get("repeated") and not f.get("map") \
                         and f["name"] not in {v.split(".")[0] for v in pv} and f["name"] != b.get("body"):
                     jn = desc.fields_by_name[f["name"]].json_name
                     if jn not in qkeys:
